@@ -24,8 +24,21 @@ class ShuffledSet(set):
         return iter(items)
 
 
-def run(fn, script, period, phase, variant="rtl", perm_seed=None, reset_midway=False):
-    """Returns the observation list in the format of AmSim's `obs`."""
+UNITS = {"fs": 1, "ps": 1000, "ns": 1000000, "us": 1000000000}
+
+
+def run(fn, script, period, phase, variant="rtl", perm_seed=None, reset_midway=False, unit="fs"):
+    """Returns the observation list in the format of AmSim's `obs`.  AmSim's time unit is rendered as one `unit`
+    (every Period is built as Period(<unit>=n) and observed times are divided back), so the exactness of simulated
+    time is exercised at the magnitudes of real designs too."""
+    K = UNITS[unit]
+
+    def P(n):
+        return Period(**{unit: n})
+
+    def T(ctx):
+        fs = ctx.elapsed_time().femtoseconds
+        return fs // K if fs % K == 0 else fs / K
     f1, f2, f3, f4, r0, q0 = fn["P1"], fn["P2"], fn["P3"], fn["P4"], fn["R0"], fn["Q0"]
     x0 = tt(f1, 0, 0)
     y0 = tt(f2, x0, 0)
@@ -70,8 +83,8 @@ def run(fn, script, period, phase, variant="rtl", perm_seed=None, reset_midway=F
     m.d.comb += [w1.addr.eq(0), w1.data.eq(Cat(nr, 0)), w1.en.eq(1),
                  w2.addr.eq(0), w2.data.eq(Cat(0, nq)), w2.en.eq(2)]
     sim = Simulator(m)
-    sim.add_clock(Period(fs=period), phase=Period(fs=phase))
-    sim.add_clock(Period(fs=period), phase=Period(fs=phase), domain="sync2")
+    sim.add_clock(P(period), phase=P(phase))
+    sim.add_clock(P(period), phase=P(phase), domain="sync2")
     if variant == "proc":
         async def p2(ctx):
             async for xv, bv in ctx.changed(x, b):
@@ -97,18 +110,18 @@ def run(fn, script, period, phase, variant="rtl", perm_seed=None, reset_midway=F
                 elif k == "get":
                     obs.append((idx, "get", op[1], ctx.get(sigs[op[1]])))
                 elif k == "time":
-                    obs.append((idx, "time", ctx.elapsed_time().femtoseconds))
+                    obs.append((idx, "time", T(ctx)))
                 elif k == "tick":
                     _, _, yv, rv, qv = await ctx.tick().sample(y, r, q)
-                    obs.append((idx, "tick", ctx.elapsed_time().femtoseconds, yv, rv, qv))
+                    obs.append((idx, "tick", T(ctx), yv, rv, qv))
                 elif k == "delay":
-                    await ctx.delay(Period(fs=op[1]))
+                    await ctx.delay(P(op[1]))
                 elif k == "changed":
                     await ctx.changed(sigs[op[1]])
-                    obs.append((idx, "fired", ctx.elapsed_time().femtoseconds, op[1], ctx.get(sigs[op[1]])))
+                    obs.append((idx, "fired", T(ctx), op[1], ctx.get(sigs[op[1]])))
                 elif k == "edge":
                     await ctx.edge(sigs[op[1]], op[2])
-                    obs.append((idx, "fired", ctx.elapsed_time().femtoseconds, op[1], ctx.get(sigs[op[1]])))
+                    obs.append((idx, "fired", T(ctx), op[1], ctx.get(sigs[op[1]])))
         return tb
 
     # `script` is a tuple of scripts: one testbench each, added in this order
@@ -133,12 +146,13 @@ def replay_case(job):
     for variant in variants:
         for seed in seeds:
             try:
-                got = run(fn, script, period, phase, variant=variant, perm_seed=seed)
+                unit = ("fs", "ps", "ns", "us")[(seed or 0) % 4]
+                got = run(fn, script, period, phase, variant=variant, perm_seed=seed, unit=unit)
             except Exception as e:
                 got = [("exception", type(e).__name__, str(e)[:200])]
             if [tuple(o) for o in got] != [tuple(o) for o in expected]:
                 first = next((i for i, (g, e) in enumerate(zip(got, expected)) if tuple(g) != tuple(e)), min(len(got), len(expected)))
-                out.append({"fn": fn, "variant": variant, "perm_seed": seed, "first_difference_at": first,
+                out.append({"fn": fn, "variant": variant, "perm_seed": seed, "time_unit": unit, "first_difference_at": first,
                             "expected": [list(o) for o in expected], "actual": [list(o) for o in got], "script": [[list(o) for o in sc] for sc in script]})
                 break
     return out
